@@ -56,4 +56,618 @@ theorem lrunFrom_base (l : LSt) (as : List Act) : (lrunFrom l as).base = runFrom
 /-- the instrumented run is the run of Model/Cache.lean -/
 theorem lrun_base (keyOf) (as : List Act) : (lrun keyOf as).base = run keyOf as := lrunFrom_base _ as
 
+/-! ### the invariant -/
+
+@[simp] theorem upd_same {α} (f : Nat → α) (i : Nat) (x : α) : upd f i x i = x := by simp [upd]
+theorem upd_ne {α} (f : Nat → α) (i j : Nat) (x : α) (h : j ≠ i) : upd f i x j = f j := by simp [upd, h]
+
+structure LInv (l : LSt) : Prop where
+  inv : Inv l.base
+  spec : SpecRun (fun _ => none) (l.lin.map (·.2)) l.base.cache
+  fetch_miss : ∀ t c k, l.base.pcs t = .fetching c k → l.base.cache k = none
+  done_lin : ∀ t k r, l.base.pcs t = .done k r →
+    ∃ τ a b, (τ, LinOp.get t k r) ∈ l.lin ∧ l.tLook t = some a ∧ l.tRet t = some b ∧ a ≤ τ ∧ τ ≤ b
+  wait_pending : ∀ t c k, l.base.pcs t = .waiting c k → l.base.results c = none →
+    t ∈ l.waiters c ∧ ∃ a, l.tLook t = some a ∧ a ≤ l.now
+  wait_lin : ∀ t c k r, l.base.pcs t = .waiting c k → l.base.results c = some r →
+    ∃ τ a, (τ, LinOp.get t k r) ∈ l.lin ∧ l.tLook t = some a ∧ a ≤ τ ∧ τ ≤ l.now
+  fetch_look : ∀ t c k, l.base.pcs t = .fetching c k → ∃ a, l.tLook t = some a ∧ a ≤ l.now
+  lin_real : ∀ τ t k r, (τ, LinOp.get t k r) ∈ l.lin →
+    l.base.pcs t = .done k r ∨ ∃ c, l.base.pcs t = .waiting c k ∧ l.base.results c = some r
+  waiters_real : ∀ c t, t ∈ l.waiters c → l.base.results c = none → ∃ k, l.base.pcs t = .waiting c k
+  lin_le : ∀ e ∈ l.lin, e.1 ≤ l.now
+
+/-- nothing but the clock moves -/
+theorem linv_tick (l : LSt) (h : LInv l) : LInv { l with now := l.now + 1 } := by
+  obtain ⟨h0, h1, h2, h3, h4, h5, h6, h7, h8, h9⟩ := h
+  refine ⟨h0, h1, h2, h3, ?_, ?_, ?_, h7, h8, ?_⟩
+  · intro t c k hw hr
+    obtain ⟨hm, a, ha, hle⟩ := h4 t c k hw hr
+    exact ⟨hm, a, ha, Nat.le_succ_of_le hle⟩
+  · intro t c k r hw hr
+    obtain ⟨τ, a, hm, ha, h1', h2'⟩ := h5 t c k r hw hr
+    exact ⟨τ, a, hm, ha, h1', Nat.le_succ_of_le h2'⟩
+  · intro t c k hf
+    obtain ⟨a, ha, hle⟩ := h6 t c k hf
+    exact ⟨a, ha, Nat.le_succ_of_le hle⟩
+  · intro e he; exact Nat.le_succ_of_le (h9 e he)
+
+theorem linv_hit (l : LSt) (t : Nat) (k : K) (v : V) (h : LInv l) (hp : l.base.pcs t = .start k) (hc : l.base.cache k = some v) :
+    LInv (lstep l (.lookup t)) := by
+  have hi := inv_step l.base (.lookup t) h.inv
+  simp only [step, hp, hc] at hi
+  have e : lstep l (.lookup t) = { l with base := { l.base with pcs := upd l.base.pcs t (.done k (.ok v)) }, now := l.now + 1, lin := l.lin ++ [(l.now + 1, .get t k (.ok v))], tLook := upd l.tLook t (some (l.now + 1)), tRet := upd l.tRet t (some (l.now + 1)) } := by
+    simp only [lstep, step, hp, hc]
+  rw [e]
+  obtain ⟨h0, h1, h2, h3, h4, h5, h6, h7, h8, h9⟩ := h
+  refine ⟨hi, ?_, ?_, ?_, ?_, ?_, ?_, ?_, ?_, ?_⟩
+  · simp only [List.map_append, List.map_cons, List.map_nil]
+    exact h1.append (SpecRun.single (SpecStep.hit hc))
+  · intro t' c k' hf
+    simp only [upd] at hf; split at hf
+    · cases hf
+    · exact h2 t' c k' hf
+  · intro t' k' r' hd
+    by_cases ht : t' = t
+    · subst ht
+      simp only [upd_same] at hd ⊢
+      cases hd
+      exact ⟨l.now + 1, l.now + 1, l.now + 1, by simp, rfl, rfl, Nat.le_refl _, Nat.le_refl _⟩
+    · simp only [upd_ne _ _ _ _ ht] at hd ⊢
+      obtain ⟨τ, a, b, hm, ha, hb, h1', h2'⟩ := h3 t' k' r' hd
+      exact ⟨τ, a, b, List.mem_append_left _ hm, ha, hb, h1', h2'⟩
+  · intro t' c k' hw hr
+    have ht : t' ≠ t := by intro e; subst e; simp at hw
+    simp only [upd_ne _ _ _ _ ht] at hw ⊢
+    obtain ⟨hm, a, ha, hle⟩ := h4 t' c k' hw hr
+    exact ⟨hm, a, ha, Nat.le_succ_of_le hle⟩
+  · intro t' c k' r' hw hr
+    have ht : t' ≠ t := by intro e; subst e; simp at hw
+    simp only [upd_ne _ _ _ _ ht] at hw ⊢
+    obtain ⟨τ, a, hm, ha, h1', h2'⟩ := h5 t' c k' r' hw hr
+    exact ⟨τ, a, List.mem_append_left _ hm, ha, h1', Nat.le_succ_of_le h2'⟩
+  · intro t' c k' hf
+    have ht : t' ≠ t := by intro e; subst e; simp at hf
+    simp only [upd_ne _ _ _ _ ht] at hf ⊢
+    obtain ⟨a, ha, hle⟩ := h6 t' c k' hf
+    exact ⟨a, ha, Nat.le_succ_of_le hle⟩
+  · intro τ t' k' r' hm
+    rcases List.mem_append.mp hm with hm | hm
+    · have := h7 τ t' k' r' hm
+      have ht : t' ≠ t := by
+        intro e; subst e; rw [hp] at this
+        rcases this with h | ⟨c, h, _⟩ <;> cases h
+      simpa only [upd_ne _ _ _ _ ht] using this
+    · simp only [List.mem_singleton, Prod.mk.injEq, LinOp.get.injEq] at hm
+      obtain ⟨_, rfl, rfl, rfl⟩ := hm
+      left; simp
+  · intro c t' hm hr
+    obtain ⟨k', hw⟩ := h8 c t' hm hr
+    have ht : t' ≠ t := by intro e; subst e; rw [hp] at hw; cases hw
+    exact ⟨k', by simpa only [upd_ne _ _ _ _ ht] using hw⟩
+  · intro e he
+    rcases List.mem_append.mp he with he | he
+    · exact Nat.le_succ_of_le (h9 e he)
+    · simp only [List.mem_singleton] at he; subst he; exact Nat.le_refl _
+
+theorem linv_wait (l : LSt) (t : Nat) (k : K) (c : Cid) (h : LInv l) (hp : l.base.pcs t = .start k) (hc : l.base.cache k = none)
+    (hcl : l.base.calls k = some c) : LInv (lstep l (.lookup t)) := by
+  have hi := inv_step l.base (.lookup t) h.inv
+  simp only [step, hp, hc, hcl] at hi
+  have e : lstep l (.lookup t) = { l with base := { l.base with pcs := upd l.base.pcs t (.waiting c k) }, now := l.now + 1, waiters := upd l.waiters c (l.waiters c ++ [t]), tLook := upd l.tLook t (some (l.now + 1)) } := by
+    simp only [lstep, step, hp, hc, hcl]
+  rw [e]
+  obtain ⟨h0, h1, h2, h3, h4, h5, h6, h7, h8, h9⟩ := h
+  have hres : l.base.results c = none := by
+    obtain ⟨t0, ht0⟩ := h0.calls_owner k c hcl
+    exact h0.fetch_nores t0 c k ht0
+  refine ⟨hi, h1, ?_, ?_, ?_, ?_, ?_, ?_, ?_, ?_⟩
+  · intro t' c' k' hf
+    simp only [upd] at hf; split at hf
+    · cases hf
+    · exact h2 t' c' k' hf
+  · intro t' k' r' hd
+    have ht : t' ≠ t := by intro e; subst e; simp at hd
+    simp only [upd_ne _ _ _ _ ht] at hd ⊢
+    exact h3 t' k' r' hd
+  · intro t' c' k' hw hr
+    by_cases ht : t' = t
+    · subst ht
+      simp only [upd_same] at hw ⊢
+      cases hw
+      exact ⟨by simp, l.now + 1, rfl, Nat.le_refl _⟩
+    · simp only [upd_ne _ _ _ _ ht] at hw ⊢
+      obtain ⟨hm, a, ha, hle⟩ := h4 t' c' k' hw hr
+      refine ⟨?_, a, ha, Nat.le_succ_of_le hle⟩
+      simp only [upd]; split
+      · rename_i hc'; subst hc'; exact List.mem_append_left _ hm
+      · exact hm
+  · intro t' c' k' r' hw hr
+    by_cases ht : t' = t
+    · subst ht
+      simp only [upd_same] at hw
+      cases hw
+      simp only at hr; rw [hres] at hr; cases hr
+    · simp only [upd_ne _ _ _ _ ht] at hw ⊢
+      obtain ⟨τ, a, hm, ha, h1', h2'⟩ := h5 t' c' k' r' hw hr
+      exact ⟨τ, a, hm, ha, h1', Nat.le_succ_of_le h2'⟩
+  · intro t' c' k' hf
+    have ht : t' ≠ t := by intro e; subst e; simp at hf
+    simp only [upd_ne _ _ _ _ ht] at hf ⊢
+    obtain ⟨a, ha, hle⟩ := h6 t' c' k' hf
+    exact ⟨a, ha, Nat.le_succ_of_le hle⟩
+  · intro τ t' k' r' hm
+    have := h7 τ t' k' r' hm
+    have ht : t' ≠ t := by
+      intro e; subst e; rw [hp] at this
+      rcases this with h | ⟨c, h, _⟩ <;> cases h
+    simpa only [upd_ne _ _ _ _ ht] using this
+  · intro c' t' hm hr
+    by_cases ht : t' = t
+    · subst ht
+      simp only [upd] at hm; split at hm
+      · rename_i hc'; subst hc'; exact ⟨k, by simp⟩
+      · obtain ⟨k', hw⟩ := h8 c' t' hm hr; rw [hp] at hw; cases hw
+    · have hm' : t' ∈ l.waiters c' := by
+        simp only [upd] at hm; split at hm
+        · rename_i hc'; subst hc'
+          rcases List.mem_append.mp hm with h | h
+          · exact h
+          · simp at h; exact absurd h ht
+        · exact hm
+      obtain ⟨k', hw⟩ := h8 c' t' hm' hr
+      exact ⟨k', by simpa only [upd_ne _ _ _ _ ht] using hw⟩
+  · intro e he; exact Nat.le_succ_of_le (h9 e he)
+
+theorem linv_miss (l : LSt) (t : Nat) (k : K) (h : LInv l) (hp : l.base.pcs t = .start k) (hc : l.base.cache k = none)
+    (hcl : l.base.calls k = none) : LInv (lstep l (.lookup t)) := by
+  have hi := inv_step l.base (.lookup t) h.inv
+  simp only [step, hp, hc, hcl] at hi
+  have e : lstep l (.lookup t) = { l with base := { l.base with calls := upd l.base.calls k (some l.base.next), pcs := upd l.base.pcs t (.fetching l.base.next k), next := l.base.next + 1, nfetch := upd l.base.nfetch k (l.base.nfetch k + 1), lateFetch := l.base.lateFetch || l.base.succeeded k, ckey := upd l.base.ckey l.base.next (some k) }, now := l.now + 1, tLook := upd l.tLook t (some (l.now + 1)) } := by
+    simp only [lstep, step, hp, hc, hcl]
+  rw [e]
+  obtain ⟨h0, h1, h2, h3, h4, h5, h6, h7, h8, h9⟩ := h
+  refine ⟨hi, h1, ?_, ?_, ?_, ?_, ?_, ?_, ?_, ?_⟩
+  · intro t' c' k' hf
+    by_cases ht : t' = t
+    · subst ht; simp only [upd_same] at hf; cases hf; exact hc
+    · simp only [upd_ne _ _ _ _ ht] at hf; exact h2 t' c' k' hf
+  · intro t' k' r' hd
+    have ht : t' ≠ t := by intro e; subst e; simp at hd
+    simp only [upd_ne _ _ _ _ ht] at hd ⊢
+    exact h3 t' k' r' hd
+  · intro t' c' k' hw hr
+    have ht : t' ≠ t := by intro e; subst e; simp at hw
+    simp only [upd_ne _ _ _ _ ht] at hw ⊢
+    obtain ⟨hm, a, ha, hle⟩ := h4 t' c' k' hw hr
+    exact ⟨hm, a, ha, Nat.le_succ_of_le hle⟩
+  · intro t' c' k' r' hw hr
+    have ht : t' ≠ t := by intro e; subst e; simp at hw
+    simp only [upd_ne _ _ _ _ ht] at hw ⊢
+    obtain ⟨τ, a, hm, ha, h1', h2'⟩ := h5 t' c' k' r' hw hr
+    exact ⟨τ, a, hm, ha, h1', Nat.le_succ_of_le h2'⟩
+  · intro t' c' k' hf
+    by_cases ht : t' = t
+    · subst ht; simp only [upd_same]; exact ⟨l.now + 1, rfl, Nat.le_refl _⟩
+    · simp only [upd_ne _ _ _ _ ht] at hf ⊢
+      obtain ⟨a, ha, hle⟩ := h6 t' c' k' hf
+      exact ⟨a, ha, Nat.le_succ_of_le hle⟩
+  · intro τ t' k' r' hm
+    have := h7 τ t' k' r' hm
+    have ht : t' ≠ t := by
+      intro e; subst e; rw [hp] at this
+      rcases this with h | ⟨c, h, _⟩ <;> cases h
+    simpa only [upd_ne _ _ _ _ ht] using this
+  · intro c' t' hm hr
+    obtain ⟨k', hw⟩ := h8 c' t' hm hr
+    have ht : t' ≠ t := by intro e; subst e; rw [hp] at hw; cases hw
+    exact ⟨k', by simpa only [upd_ne _ _ _ _ ht] using hw⟩
+  · intro e he; exact Nat.le_succ_of_le (h9 e he)
+
+theorem mem_get_of_mem_nonget {l : List (Nat × LinOp)} {x : Nat × LinOp} {τ t k r} (hx : ∀ t k r, x.2 ≠ LinOp.get t k r)
+    (hm : (τ, LinOp.get t k r) ∈ l ++ [x]) : (τ, LinOp.get t k r) ∈ l := by
+  rcases List.mem_append.mp hm with h | h
+  · exact h
+  · simp only [List.mem_singleton] at h; subst h; exact absurd rfl (hx t k r)
+
+theorem linv_publish (l : LSt) (t : Nat) (r : R) (c : Cid) (k : K) (h : LInv l) (hp : l.base.pcs t = .fetching c k) :
+    LInv (lstep l (.publish t r)) := by
+  have hi := inv_step l.base (.publish t r) h.inv
+  obtain ⟨h0, h1, h2, h3, h4, h5, h6, h7, h8, h9⟩ := h
+  have hck : l.base.calls k = some c := h0.fetch_calls t c k hp
+  have hres : l.base.results c = none := h0.fetch_nores t c k hp
+  have hmiss : l.base.cache k = none := h2 t c k hp
+  simp only [step, hp, hck, if_true] at hi
+  simp only [lstep, step, hp, hck, if_true]
+  -- a waiter of c waits for key k
+  have hwk : ∀ w k', l.base.pcs w = .waiting c k' → k' = k := by
+    intro w k' hw
+    have a := (h0.ckey_wait w c k' hw).1
+    have b := h0.ckey_fetch t c k hp
+    rw [a] at b; cases b; rfl
+  refine ⟨hi, ?_, ?_, ?_, ?_, ?_, ?_, ?_, ?_, ?_⟩
+  · simp only [List.map_append, List.map_cons]
+    refine h1.append ?_
+    cases r with
+    | ok v =>
+      refine SpecRun.cons (SpecStep.missOk hmiss) ?_
+      exact specRun_hits _ k v (by simp) (l.now + 1) (l.waiters c)
+    | err =>
+      refine SpecRun.cons (SpecStep.missErr hmiss) ?_
+      exact specRun_errs _ k hmiss (l.now + 1) (l.waiters c)
+  · intro t' c' k' hf
+    have ht : t' ≠ t := by intro e; subst e; simp at hf
+    simp only [upd_ne _ _ _ _ ht] at hf
+    have hold := h2 t' c' k' hf
+    have hk : k' ≠ k := by
+      intro e; subst e
+      exact ht (h0.fetch_uniq t' t c' c k' hf hp)
+    cases r with
+    | ok v => simp only [upd_ne _ _ _ _ hk]; exact hold
+    | err => exact hold
+  · intro t' k' r' hd
+    by_cases ht : t' = t
+    · subst ht
+      simp only [upd_same] at hd ⊢
+      cases hd
+      obtain ⟨a, ha, hle⟩ := h6 t' c k hp
+      exact ⟨l.now + 1, a, l.now + 1, by simp, ha, rfl, Nat.le_succ_of_le hle, Nat.le_refl _⟩
+    · simp only [upd_ne _ _ _ _ ht] at hd ⊢
+      obtain ⟨τ, a, b, hm, ha, hb, h1', h2'⟩ := h3 t' k' r' hd
+      exact ⟨τ, a, b, List.mem_append_left _ hm, ha, hb, h1', h2'⟩
+  · intro t' c' k' hw hr
+    have ht : t' ≠ t := by intro e; subst e; simp at hw
+    simp only [upd_ne _ _ _ _ ht] at hw ⊢
+    have hc' : c' ≠ c := by intro e; subst e; simp at hr
+    simp only [upd_ne _ _ _ _ hc'] at hr
+    obtain ⟨hm, a, ha, hle⟩ := h4 t' c' k' hw hr
+    exact ⟨hm, a, ha, Nat.le_succ_of_le hle⟩
+  · intro t' c' k' r' hw hr
+    have ht : t' ≠ t := by intro e; subst e; simp at hw
+    simp only [upd_ne _ _ _ _ ht] at hw ⊢
+    by_cases hc' : c' = c
+    · subst hc'
+      simp only [upd_same, Option.some.injEq] at hr; subst hr
+      have hk := hwk t' k' hw; subst hk
+      obtain ⟨hm, a, ha, hle⟩ := h4 t' c' k' hw hres
+      refine ⟨l.now + 1, a, ?_, ha, Nat.le_succ_of_le hle, Nat.le_refl _⟩
+      apply List.mem_append_right
+      apply List.mem_cons_of_mem
+      exact List.mem_map.mpr ⟨t', hm, rfl⟩
+    · simp only [upd_ne _ _ _ _ hc'] at hr
+      obtain ⟨τ, a, hm, ha, h1', h2'⟩ := h5 t' c' k' r' hw hr
+      exact ⟨τ, a, List.mem_append_left _ hm, ha, h1', Nat.le_succ_of_le h2'⟩
+  · intro t' c' k' hf
+    have ht : t' ≠ t := by intro e; subst e; simp at hf
+    simp only [upd_ne _ _ _ _ ht] at hf ⊢
+    obtain ⟨a, ha, hle⟩ := h6 t' c' k' hf
+    exact ⟨a, ha, Nat.le_succ_of_le hle⟩
+  · intro τ t' k' r' hm
+    rcases List.mem_append.mp hm with hm | hm
+    · have hold := h7 τ t' k' r' hm
+      have ht : t' ≠ t := by
+        intro e; subst e; rw [hp] at hold
+        rcases hold with h | ⟨c, h, _⟩ <;> cases h
+      simp only [upd_ne _ _ _ _ ht]
+      rcases hold with h | ⟨c', hw, hr⟩
+      · exact Or.inl h
+      · have hc' : c' ≠ c := by intro e; subst e; rw [hres] at hr; cases hr
+        exact Or.inr ⟨c', hw, by simp only [upd_ne _ _ _ _ hc']; exact hr⟩
+    · rcases List.mem_cons.mp hm with hm | hm
+      · simp only [Prod.mk.injEq, LinOp.get.injEq] at hm
+        obtain ⟨_, rfl, rfl, rfl⟩ := hm
+        left; simp
+      · obtain ⟨w, hw, he⟩ := List.mem_map.mp hm
+        simp only [Prod.mk.injEq, LinOp.get.injEq] at he
+        obtain ⟨_, rfl, rfl, rfl⟩ := he
+        obtain ⟨k', hwait⟩ := h8 c w hw hres
+        have hk := hwk w k' hwait; subst hk
+        have ht : w ≠ t := by intro e; subst e; rw [hp] at hwait; cases hwait
+        right
+        exact ⟨c, by simp only [upd_ne _ _ _ _ ht]; exact hwait, by simp⟩
+  · intro c' t' hm hr
+    have hc' : c' ≠ c := by intro e; subst e; simp at hr
+    simp only [upd_ne _ _ _ _ hc'] at hr
+    obtain ⟨k', hw⟩ := h8 c' t' hm hr
+    have ht : t' ≠ t := by intro e; subst e; rw [hp] at hw; cases hw
+    exact ⟨k', by simpa only [upd_ne _ _ _ _ ht] using hw⟩
+  · intro e he
+    rcases List.mem_append.mp he with he | he
+    · exact Nat.le_succ_of_le (h9 e he)
+    · rcases List.mem_cons.mp he with he | he
+      · subst he; exact Nat.le_refl _
+      · obtain ⟨w, _, rfl⟩ := List.mem_map.mp he; exact Nat.le_refl _
+
+theorem linv_wake (l : LSt) (t : Nat) (c : Cid) (k : K) (r : R) (h : LInv l) (hp : l.base.pcs t = .waiting c k)
+    (hr : l.base.results c = some r) : LInv (lstep l (.wake t)) := by
+  have hi := inv_step l.base (.wake t) h.inv
+  simp only [step, hp, hr] at hi
+  have e : lstep l (.wake t) = { l with base := { l.base with pcs := upd l.base.pcs t (.done k r) }, now := l.now + 1, tRet := upd l.tRet t (some (l.now + 1)) } := by
+    simp only [lstep, step, hp, hr]
+  rw [e]
+  obtain ⟨h0, h1, h2, h3, h4, h5, h6, h7, h8, h9⟩ := h
+  refine ⟨hi, h1, ?_, ?_, ?_, ?_, ?_, ?_, ?_, ?_⟩
+  · intro t' c' k' hf
+    have ht : t' ≠ t := by intro e; subst e; simp at hf
+    simp only [upd_ne _ _ _ _ ht] at hf; exact h2 t' c' k' hf
+  · intro t' k' r' hd
+    by_cases ht : t' = t
+    · subst ht
+      simp only [upd_same] at hd ⊢
+      cases hd
+      obtain ⟨τ, a, hm, ha, h1', h2'⟩ := h5 t' c k r hp hr
+      exact ⟨τ, a, l.now + 1, hm, ha, rfl, h1', Nat.le_succ_of_le h2'⟩
+    · simp only [upd_ne _ _ _ _ ht] at hd ⊢
+      exact h3 t' k' r' hd
+  · intro t' c' k' hw hr'
+    have ht : t' ≠ t := by intro e; subst e; simp at hw
+    simp only [upd_ne _ _ _ _ ht] at hw ⊢
+    obtain ⟨hm, a, ha, hle⟩ := h4 t' c' k' hw hr'
+    exact ⟨hm, a, ha, Nat.le_succ_of_le hle⟩
+  · intro t' c' k' r' hw hr'
+    have ht : t' ≠ t := by intro e; subst e; simp at hw
+    simp only [upd_ne _ _ _ _ ht] at hw ⊢
+    obtain ⟨τ, a, hm, ha, h1', h2'⟩ := h5 t' c' k' r' hw hr'
+    exact ⟨τ, a, hm, ha, h1', Nat.le_succ_of_le h2'⟩
+  · intro t' c' k' hf
+    have ht : t' ≠ t := by intro e; subst e; simp at hf
+    simp only [upd_ne _ _ _ _ ht] at hf ⊢
+    obtain ⟨a, ha, hle⟩ := h6 t' c' k' hf
+    exact ⟨a, ha, Nat.le_succ_of_le hle⟩
+  · intro τ t' k' r' hm
+    have hold := h7 τ t' k' r' hm
+    by_cases ht : t' = t
+    · subst ht
+      simp only [upd_same]
+      rw [hp] at hold
+      rcases hold with h | ⟨c', hw, hr'⟩
+      · cases h
+      · cases hw; rw [hr] at hr'; cases hr'; exact Or.inl rfl
+    · simpa only [upd_ne _ _ _ _ ht] using hold
+  · intro c' t' hm hr'
+    obtain ⟨k', hw⟩ := h8 c' t' hm hr'
+    have ht : t' ≠ t := by
+      intro e; subst e; rw [hp] at hw; cases hw; rw [hr] at hr'; cases hr'
+    exact ⟨k', by simpa only [upd_ne _ _ _ _ ht] using hw⟩
+  · intro e he; exact Nat.le_succ_of_le (h9 e he)
+
+/-- SetMap / GetMap: the base changes only in `cache`/`maps`/ghost counters, one non-Get entry is appended -/
+theorem linv_setMap (l : LSt) (m : K → Option V) (h : LInv l) (hq : ∀ k, l.base.calls k = none) : LInv (lstep l (.setMap m)) := by
+  have hi := inv_step l.base (.setMap m) h.inv
+  obtain ⟨h0, h1, h2, h3, h4, h5, h6, h7, h8, h9⟩ := h
+  have nofetch : ∀ t c k, l.base.pcs t = .fetching c k → False := by
+    intro t c k hf; have := h0.fetch_calls t c k hf; rw [hq k] at this; cases this
+  simp only [step] at hi
+  simp only [lstep, step]
+  refine ⟨hi, ?_, ?_, ?_, ?_, ?_, ?_, ?_, h8, ?_⟩
+  · simp only [List.map_append, List.map_cons, List.map_nil]
+    exact h1.append (SpecRun.single SpecStep.set)
+  · intro t c k hf; exact (nofetch t c k hf).elim
+  · intro t k r hd
+    obtain ⟨τ, a, b, hm, ha, hb, h1', h2'⟩ := h3 t k r hd
+    exact ⟨τ, a, b, List.mem_append_left _ hm, ha, hb, h1', h2'⟩
+  · intro t c k hw hr
+    obtain ⟨hm, a, ha, hle⟩ := h4 t c k hw hr
+    exact ⟨hm, a, ha, Nat.le_succ_of_le hle⟩
+  · intro t c k r hw hr
+    obtain ⟨τ, a, hm, ha, h1', h2'⟩ := h5 t c k r hw hr
+    exact ⟨τ, a, List.mem_append_left _ hm, ha, h1', Nat.le_succ_of_le h2'⟩
+  · intro t c k hf; exact (nofetch t c k hf).elim
+  · intro τ t k r hm
+    exact h7 τ t k r (mem_get_of_mem_nonget (by intro _ _ _ h; cases h) hm)
+  · intro e he
+    rcases List.mem_append.mp he with he | he
+    · exact Nat.le_succ_of_le (h9 e he)
+    · simp only [List.mem_singleton] at he; subst he; exact Nat.le_refl _
+
+theorem linv_getMap (l : LSt) (h : LInv l) : LInv (lstep l .getMap) := by
+  have hi := inv_step l.base .getMap h.inv
+  obtain ⟨h0, h1, h2, h3, h4, h5, h6, h7, h8, h9⟩ := h
+  simp only [step] at hi
+  simp only [lstep, step]
+  refine ⟨hi, ?_, h2, ?_, ?_, ?_, ?_, ?_, h8, ?_⟩
+  · simp only [List.map_append, List.map_cons, List.map_nil]
+    exact h1.append (SpecRun.single SpecStep.snap)
+  · intro t k r hd
+    obtain ⟨τ, a, b, hm, ha, hb, h1', h2'⟩ := h3 t k r hd
+    exact ⟨τ, a, b, List.mem_append_left _ hm, ha, hb, h1', h2'⟩
+  · intro t c k hw hr
+    obtain ⟨hm, a, ha, hle⟩ := h4 t c k hw hr
+    exact ⟨hm, a, ha, Nat.le_succ_of_le hle⟩
+  · intro t c k r hw hr
+    obtain ⟨τ, a, hm, ha, h1', h2'⟩ := h5 t c k r hw hr
+    exact ⟨τ, a, List.mem_append_left _ hm, ha, h1', Nat.le_succ_of_le h2'⟩
+  · intro t c k hf
+    obtain ⟨a, ha, hle⟩ := h6 t c k hf
+    exact ⟨a, ha, Nat.le_succ_of_le hle⟩
+  · intro τ t k r hm
+    exact h7 τ t k r (mem_get_of_mem_nonget (by intro _ _ _ h; cases h) hm)
+  · intro e he
+    rcases List.mem_append.mp he with he | he
+    · exact Nat.le_succ_of_le (h9 e he)
+    · simp only [List.mem_singleton] at he; subst he; exact Nat.le_refl _
+
+theorem linv_step (l : LSt) (a : Act) (h : LInv l) (hok : stepOK l.base a) : LInv (lstep l a) := by
+  cases a with
+  | lookup t =>
+    cases hp : l.base.pcs t with
+    | start k =>
+      cases hc : l.base.cache k with
+      | some v => exact linv_hit l t k v h hp hc
+      | none =>
+        cases hcl : l.base.calls k with
+        | some c => exact linv_wait l t k c h hp hc hcl
+        | none => exact linv_miss l t k h hp hc hcl
+    | _ =>
+      have e : lstep l (.lookup t) = { l with now := l.now + 1 } := by simp [lstep, step, hp]
+      rw [e]; exact linv_tick l h
+  | publish t r =>
+    cases hp : l.base.pcs t with
+    | fetching c k => exact linv_publish l t r c k h hp
+    | _ =>
+      have e : lstep l (.publish t r) = { l with now := l.now + 1 } := by simp [lstep, step, hp]
+      rw [e]; exact linv_tick l h
+  | wake t =>
+    cases hp : l.base.pcs t with
+    | waiting c k =>
+      cases hr : l.base.results c with
+      | some r => exact linv_wake l t c k r h hp hr
+      | none =>
+        have e : lstep l (.wake t) = { l with now := l.now + 1 } := by simp [lstep, step, hp, hr]
+        rw [e]; exact linv_tick l h
+    | _ =>
+      have e : lstep l (.wake t) = { l with now := l.now + 1 } := by simp [lstep, step, hp]
+      rw [e]; exact linv_tick l h
+  | setMap m => exact linv_setMap l m h hok
+  | getMap => exact linv_getMap l h
+
+theorem linv_init (keyOf) : LInv (linit keyOf) := by
+  refine ⟨inv_init keyOf, SpecRun.nil, ?_, ?_, ?_, ?_, ?_, ?_, ?_, ?_⟩ <;> simp [linit, init]
+  all_goals (intros; split at * <;> simp_all)
+
+theorem linv_runFrom : ∀ (as : List Act) (l : LSt), LInv l → RunOK l.base as → LInv (lrunFrom l as)
+  | [], l, h, _ => h
+  | a :: as, l, h, hok => by
+    have h' := linv_step l a h hok.1
+    have := linv_runFrom as (lstep l a) h' (by rw [lstep_base]; exact hok.2)
+    simpa [lrunFrom] using this
+
+/-! ### order and uniqueness of the linearization -/
+
+theorem mem_callers {lin : List (Nat × LinOp)} {t : Nat} : t ∈ callers lin ↔ ∃ τ k r, (τ, LinOp.get t k r) ∈ lin := by
+  unfold callers
+  rw [List.mem_filterMap]
+  constructor
+  · rintro ⟨⟨τ, op⟩, hm, hc⟩
+    cases op with
+    | get t' k r => simp only [LinOp.caller, Option.some.injEq] at hc; subst hc; exact ⟨τ, k, r, hm⟩
+    | set m => cases hc
+    | snap m => cases hc
+  · rintro ⟨τ, k, r, hm⟩
+    exact ⟨_, hm, rfl⟩
+
+structure LInv2 (l : LSt) : Prop where
+  sorted : l.lin.Pairwise (fun a b => a.1 ≤ b.1)
+  nodup : (callers l.lin).Nodup
+  wnodup : ∀ c, (l.waiters c).Nodup
+
+theorem sorted_append (l : LSt) (h : LInv l) (h2 : LInv2 l) (new : List (Nat × LinOp)) (hn : ∀ e ∈ new, e.1 = l.now + 1) :
+    (l.lin ++ new).Pairwise (fun a b => a.1 ≤ b.1) := by
+  rw [List.pairwise_append]
+  refine ⟨h2.sorted, ?_, ?_⟩
+  · apply List.Pairwise.imp_of_mem (R := fun _ _ => True)
+    · intro a b ha hb _; rw [hn a ha, hn b hb]; exact Nat.le_refl _
+    · exact List.pairwise_of_forall (fun _ _ => trivial)
+  · intro a ha b hb
+    rw [hn b hb]; exact Nat.le_succ_of_le (h.lin_le a ha)
+
+theorem not_linearized_of_start (l : LSt) (h : LInv l) (t : Nat) (k : K) (hp : l.base.pcs t = .start k) : t ∉ callers l.lin := by
+  intro hm
+  obtain ⟨τ, k', r, hm⟩ := mem_callers.mp hm
+  rcases h.lin_real τ t k' r hm with h' | ⟨c, h', _⟩ <;> rw [hp] at h' <;> cases h'
+
+theorem linv2_step (l : LSt) (a : Act) (h : LInv l) (h2 : LInv2 l) : LInv2 (lstep l a) := by
+  cases a with
+  | lookup t =>
+    cases hp : l.base.pcs t with
+    | start k =>
+      cases hc : l.base.cache k with
+      | some v =>
+        simp only [lstep, hp, hc]
+        refine ⟨sorted_append l h h2 _ (by simp), ?_, h2.wnodup⟩
+        simp only [callers, List.filterMap_append, List.filterMap_cons, List.filterMap_nil, LinOp.caller]
+        rw [List.nodup_append]
+        refine ⟨h2.nodup, by simp, ?_⟩
+        intro a ha b hb
+        simp only [List.mem_singleton] at hb; subst hb
+        intro e; subst e
+        exact not_linearized_of_start l h a k hp ha
+      | none =>
+        cases hcl : l.base.calls k with
+        | some c =>
+          simp only [lstep, hp, hc, hcl]
+          refine ⟨h2.sorted, h2.nodup, ?_⟩
+          intro c'
+          simp only [upd]; split
+          · rename_i hc'; subst hc'
+            rw [List.nodup_append]
+            refine ⟨h2.wnodup c', by simp, ?_⟩
+            intro a ha b hb
+            simp only [List.mem_singleton] at hb; subst hb
+            intro e; subst e
+            have hres : l.base.results c' = none := by
+              obtain ⟨t0, ht0⟩ := h.inv.calls_owner k c' hcl
+              exact h.inv.fetch_nores t0 c' k ht0
+            obtain ⟨k', hw⟩ := h.waiters_real c' a ha hres
+            rw [hp] at hw; cases hw
+          · exact h2.wnodup c'
+        | none =>
+          simp only [lstep, hp, hc, hcl]
+          exact ⟨h2.sorted, h2.nodup, h2.wnodup⟩
+    | _ => simp only [lstep, hp]; exact ⟨h2.sorted, h2.nodup, h2.wnodup⟩
+  | publish t r =>
+    cases hp : l.base.pcs t with
+    | fetching c k =>
+      simp only [lstep, hp]
+      have hres : l.base.results c = none := h.inv.fetch_nores t c k hp
+      have notlin : ∀ w, (w = t ∨ w ∈ l.waiters c) → w ∉ callers l.lin := by
+        intro w hw hm
+        obtain ⟨τ, k', r', hm⟩ := mem_callers.mp hm
+        have hreal := h.lin_real τ w k' r' hm
+        rcases hw with rfl | hw
+        · rcases hreal with h' | ⟨c', h', _⟩ <;> rw [hp] at h' <;> cases h'
+        · obtain ⟨k'', hwait⟩ := h.waiters_real c w hw hres
+          rcases hreal with h' | ⟨c', h', hr'⟩
+          · rw [hwait] at h'; cases h'
+          · rw [hwait] at h'; cases h'; rw [hres] at hr'; cases hr'
+      refine ⟨sorted_append l h h2 _ ?_, ?_, h2.wnodup⟩
+      · intro e he
+        rcases List.mem_cons.mp he with rfl | he
+        · rfl
+        · obtain ⟨w, _, rfl⟩ := List.mem_map.mp he; rfl
+      · have hc : callers ((l.now + 1, LinOp.get t k r) :: (l.waiters c).map (fun w => (l.now + 1, LinOp.get w k r))) = t :: l.waiters c := by
+          simp only [callers, List.filterMap_cons, LinOp.caller]
+          congr 1
+          induction l.waiters c with
+          | nil => rfl
+          | cons w ws ih => simp only [List.map_cons, List.filterMap_cons, LinOp.caller, ih]
+        have : callers (l.lin ++ (l.now + 1, LinOp.get t k r) :: (l.waiters c).map (fun w => (l.now + 1, LinOp.get w k r))) = callers l.lin ++ (t :: l.waiters c) := by
+          rw [← hc]; simp only [callers, List.filterMap_append]
+        rw [this, List.nodup_append]
+        refine ⟨h2.nodup, ?_, ?_⟩
+        · rw [List.nodup_cons]
+          refine ⟨?_, h2.wnodup c⟩
+          intro hm
+          obtain ⟨k', hw⟩ := h.waiters_real c t hm hres
+          rw [hp] at hw; cases hw
+        · intro a ha b hb e; subst e
+          exact notlin a (List.mem_cons.mp hb) ha
+    | _ => simp only [lstep, hp]; exact ⟨h2.sorted, h2.nodup, h2.wnodup⟩
+  | wake t =>
+    cases hp : l.base.pcs t with
+    | waiting c k =>
+      cases hr : l.base.results c <;> simp only [lstep, hp, hr] <;> exact ⟨h2.sorted, h2.nodup, h2.wnodup⟩
+    | _ => simp only [lstep, hp]; exact ⟨h2.sorted, h2.nodup, h2.wnodup⟩
+  | setMap m =>
+    simp only [lstep]
+    refine ⟨sorted_append l h h2 _ (by simp), ?_, h2.wnodup⟩
+    simp only [callers, List.filterMap_append, List.filterMap_cons, List.filterMap_nil, LinOp.caller, List.append_nil]
+    exact h2.nodup
+  | getMap =>
+    simp only [lstep]
+    refine ⟨sorted_append l h h2 _ (by simp), ?_, h2.wnodup⟩
+    simp only [callers, List.filterMap_append, List.filterMap_cons, List.filterMap_nil, LinOp.caller, List.append_nil]
+    exact h2.nodup
+
+theorem linv2_runFrom : ∀ (as : List Act) (l : LSt), LInv l → LInv2 l → RunOK l.base as → LInv2 (lrunFrom l as)
+  | [], l, _, h2, _ => h2
+  | a :: as, l, h, h2, hok => by
+    have h' := linv_step l a h hok.1
+    have h2' := linv2_step l a h h2
+    have := linv2_runFrom as (lstep l a) h' h2' (by rw [lstep_base]; exact hok.2)
+    simpa [lrunFrom] using this
+
+theorem linv2_init (keyOf) : LInv2 (linit keyOf) := ⟨List.Pairwise.nil, by simp [linit, callers], by simp [linit]⟩
+
+
 end Scalibr.Cache
